@@ -254,6 +254,11 @@ class C13(Check):
                      T.TraceSet.__init__, T.TraceSet.xy, T.TraceSet.xnorm, M.djs_laxisgen, M.djs_laxisnum]
         for f in originals:
             self.reach.add(f)
+        self.brd.per_case = 1
+        self.brd.attach(self.rec, GM, 'flegendre', every=7, own=True)
+        for n in ('fchebyshev', 'fchebyshev_split', 'fpoly', 'func_fit', 'traceset2xy', 'xy2traceset'):
+            self.brd.attach(self.rec, T, n, every=7, own=(n != 'xy2traceset'))
+        self.brd.attach(self.rec, T.TraceSet, 'xy', label='TraceSet.xy', every=7, own=True)
         self.rec.wrap(GM, 'flegendre')
         for n in ('fchebyshev', 'fchebyshev_split', 'fpoly', 'func_fit', 'traceset2xy', 'xy2traceset'):
             self.rec.wrap(T, n)
